@@ -619,7 +619,7 @@ def gen_world(struct_seed, value_seed, cfg) -> dict:
             "duration": gen_float(rv, cfg, 0.0, None),
             "channels": rv.choice([1, 2, 4, 0, 2**31, 2**62]),
             "samplerate": rv.choice(
-                [8000, 44100, 384000, 1, 7919, 2**31 + 1, 2**63 - 1]
+                [8000, 44100, 384000, 1, 7919, 2**31 + 1, 2**63 - 1, 0]
             ),
         }
         if _maybe(rv, cfg):
@@ -627,7 +627,10 @@ def gen_world(struct_seed, value_seed, cfg) -> dict:
                 [1.0, 0.5, 10.0, 2.5, 0.1, gen_float(rv, cfg, 0.0, None)]
             )
         if _maybe(rv, cfg):
-            r["hash"] = "%032x" % rv.getrandbits(128)
+            r["hash"] = (
+                "" if rv.random() < cfg["p_edge"] / 4
+                else "%032x" % rv.getrandbits(128)
+            )
         if _maybe(rv, cfg):
             r["date"] = (
                 dt.date(1990, 1, 1) + dt.timedelta(days=rv.randint(0, 20000))
